@@ -218,10 +218,16 @@ def mentions(n, name):
 
 
 def variants(facts, q, chk=None, need_pattern=True, file=None):
+    """all analysed variants (template pattern, instantiations, plain) of a function. Variants for which clang cannot build a CFG
+    (range-based for over a dependent range in a template pattern) are left out; the rule then needs at least one instantiation."""
     fns = facts.fns(q, file=file)
     if chk is not None and need_pattern:
         chk.require(any(f.kind in ('pattern', 'plain') for f in fns), 'anchor %s not found' % q)
-    return fns
+    ok = [f for f in fns if f._cfg]
+    if chk is not None and len(ok) != len(fns):
+        chk.note('%s: clang builds no CFG for the template pattern (dependent range-for); decided on %d instantiation(s)' % (q, len(ok)))
+        chk.require(bool(ok), 'no variant of %s has a CFG (no instantiation in the analysis set)' % q)
+    return ok
 
 
 def local_init(fn, name):
